@@ -60,13 +60,15 @@ def run_item(item, root: Path, counter, argstore=None):
     signal.alarm(20)
     try:
         entry = item["entry"]
-        proj.mkdir(parents=True)
-        for rel, text in (item.get("files") or {}).items():
-            f = proj / rel
-            f.parent.mkdir(parents=True, exist_ok=True)
-            f.write_text(text, encoding="utf-8")
+        if entry != "TEST" or item.get("files"):        # a virtual build without further files touches no folder
+            proj.mkdir(parents=True)
+            for rel, text in (item.get("files") or {}).items():
+                f = proj / rel
+                f.parent.mkdir(parents=True, exist_ok=True)
+                f.write_text(text, encoding="utf-8")
         if entry == "TEST":
-            os.chdir(proj)
+            if item.get("files"):
+                os.chdir(proj)
             from jmc.compile.test_compile import JMCTestPack
             store = argstore.setdefault(item["id"], {}) if argstore is not None else {}
             p = store.get("pack")
@@ -238,6 +240,53 @@ def install_keep_pyenv():
         IsolatedEnvironment.reset = lambda self: None
 
 
+def global_containers():
+    """{path: object} for every mutable container (set / dict / list) bound at module level or as a class attribute in a loaded jmc
+    module (one path per object; enum internals, loggers, typing objects and singletons excluded)"""
+    import types, enum
+    out, seen = {}, set()
+    for mname in sorted(m for m in sys.modules if m == "jmc" or m.startswith("jmc.")):
+        mod = sys.modules[mname]
+        for name, obj in sorted(vars(mod).items()):
+            if name.startswith("__") and name.endswith("__"):
+                continue
+            cands = []
+            if isinstance(obj, type) and obj.__module__ == mname and not issubclass(obj, enum.Enum) and obj.__name__ != "SingleTonMeta":
+                cands = [(f"{mname}.{name}.{an}", av) for an, av in sorted(vars(obj).items()) if not (an.startswith("__") and an.endswith("__"))]
+            elif not isinstance(obj, type):
+                cands = [(f"{mname}.{name}", obj)]
+            for path, o in cands:
+                if isinstance(o, (set, dict, list)) and id(o) not in seen:
+                    seen.add(id(o))
+                    out[path] = o
+    return out
+
+
+def perturb(obj, how, words):
+    """what an aliasing bug does to a shared container: content of some project is ADDED, or entries are DROPPED"""
+    if how in ("drop", "both") and len(obj) > 1:
+        if isinstance(obj, list):
+            del obj[1::2]
+        else:
+            for k in sorted(obj, key=repr)[1::2]:
+                if isinstance(obj, dict):
+                    del obj[k]
+                else:
+                    obj.discard(k)
+    if how in ("add", "both") and len(obj) > 0:
+        sample = next(iter(obj.values())) if isinstance(obj, dict) else next(iter(obj))
+        keylike = next(iter(obj)) if not isinstance(obj, list) else sample
+        if not isinstance(keylike, str):
+            return
+        for w in words:
+            if isinstance(obj, dict):
+                obj.setdefault(w, sample)
+            elif isinstance(obj, set):
+                obj.add(w)
+            elif isinstance(sample, str):
+                obj.append(w)
+
+
 class Tracer:
     """Counts, per compile, which set-iteration sites of the regenerated table were executed and with how many elements,
     how many elements every set-typed attribute of Header / DataPack / Lexer held, and which Header fields a compile left
@@ -356,6 +405,15 @@ def main():
             pass
         from jmc.compile.header import Header
         Header()                # the singleton exists before the first snapshot: only CHANGED fields are reported
+        if req.get("list_globals"):
+            sys.stdout = real_stdout
+            json.dump({"globals": [dict(path=k, type=type(v).__name__, size=len(v)) for k, v in global_containers().items()]}, sys.stdout)
+            return
+        if req.get("perturb"):
+            gc_ = global_containers()
+            for path in req["perturb"]["paths"]:
+                if path in gc_:
+                    perturb(gc_[path], req["perturb"]["how"], req["perturb"].get("words") or [])
         if req.get("keep_field"):
             install_keep_field(req["keep_field"])
         if req.get("keep_pyenv"):
